@@ -47,6 +47,14 @@ def ecStep (o : OpLine) : String :=
       | some f => "=> ok recon=" ++ f
       | none => "=> ok recon=err"
     | _, _, _, _, _ => "=> bad-op"
+  | "rrange" =>   -- `DecodeRange(rule, from, to, parts)`: the parts from..to INCLUSIVE are required
+    match o.nat? "d", o.nat? "p", o.nat? "len", o.nats? "present", o.nat? "from", o.nat? "to" with
+    | some d, some p, some ln, some pr, some fr, some to =>
+      if ln = 0 || to < fr || to ≥ d + p then "=> bad-op" else
+      match reconFlags d (d + p) pr ((List.range (to + 1)).filter (· ≥ fr)) with
+      | some f => "=> ok recon=" ++ f
+      | none => "=> ok recon=err"
+    | _, _, _, _, _, _ => "=> bad-op"
   | "layout" =>
     match o.nat? "d", o.nat? "p", o.nat? "len", o.nat? "cap" with
     | some d, some p, some ln, some cp =>
